@@ -2,7 +2,7 @@
    PARTIAL: the theorems are about the model (reference semantics L1 and chunk-stream operators L2 of Model.v);
    the repository's operators are tied to it by the black-box correspondence only (props/C08/NOTES.md). *)
 From Coq Require Import ZArith List Bool Permutation Sorted.
-From OG Require Import C08.Model C08.Proofs C08.Pipe C08.DescMerge C08.PipeProofs C08.Rpn.
+From OG Require Import C08.Model C08.Proofs C08.Pipe C08.DescMerge C08.PipeProofs C08.Rpn C08.Prune.
 Import ListNotations.
 
 (* Every operator that is a state machine over rows gives the same output and final state for every cut of its
@@ -270,3 +270,40 @@ Theorem C08_rpn_single_stack_eq_tree : forall {Atom} (holds : Atom -> bool) (t :
   run1 holds (rpn t) (Some []) = Some [teval holds t].
 Proof. exact @rpn_single_stack_eq_tree. Qed.
 Print Assumptions C08_rpn_single_stack_eq_tree.
+
+(* series pruning under LIMIT (engine/iterators.go itrsInitWithLimit + topNLinkedList; finding C08-limit-prune-time-range).
+   General criterion: leaving series out does not change the first m rows of the ordered merge when every row of a series
+   left out has at least m kept rows strictly before it. *)
+Theorem C08_limit_prune_unobservable : forall m kept dropped,
+  (forall d, In d (concat dropped) -> (m <= nlt d (concat kept))%nat) ->
+  limit_answer m (kept ++ dropped) = limit_answer m kept.
+Proof. exact prune_unobservable. Qed.
+Print Assumptions C08_limit_prune_unobservable.
+
+(* the repaired rule (props/C08/fix5.patch): series whose key lies before the range are never left out, the others are
+   ranked by their key and the m smallest are kept; a key inside the range is the time of the series' first row. Then the
+   LIMIT answer over the pruned set is the answer over all series (no two series with a row at the same instant: the order
+   of such rows is finding C08-tie-order). *)
+Theorem C08_limit_prune_repaired_sound : forall lo m ks,
+  Forall (fun k => Sorted row_le (snd k) /\ snd k <> []) ks ->
+  (forall k, In k ks -> (lo <= fst k)%Z -> fst k = first_time (snd k)) ->
+  NoDup (map fst (concat (map snd ks))) ->
+  limit_answer m (prune_repaired lo m ks) = limit_answer m (map snd ks).
+Proof. exact prune_repaired_alg_sound. Qed.
+Print Assumptions C08_limit_prune_repaired_sound.
+
+(* characterisation of today's rule (every series ranked): right whenever every key is a first time, i.e. no series holds
+   a stored point outside the range on the side the scan starts from - the signature of C08-limit-prune-time-range *)
+Theorem C08_limit_prune_current_sound_exact_keys : forall m ks,
+  Forall (fun k => Sorted row_le (snd k) /\ snd k <> []) ks ->
+  (forall k, In k ks -> fst k = first_time (snd k)) ->
+  NoDup (map fst (concat (map snd ks))) ->
+  limit_answer m (prune_current m ks) = limit_answer m (map snd ks).
+Proof. exact prune_current_sound_exact_keys. Qed.
+Print Assumptions C08_limit_prune_current_sound_exact_keys.
+
+(* non-vacuity: range [10, ..), LIMIT 1, series A = {0 (outside), 100}, series B = {50}: the repaired rule keeps A unranked *)
+Example C08_limit_prune_example :
+  limit_answer 1 (prune_repaired 10 1 [wA; wB]) = limit_answer 1 (map snd [wA; wB]) /\
+  limit_answer 1 (map snd [wA; wB]) = [(50, [CVal 2])]%Z.
+Proof. split; vm_compute; reflexivity. Qed.
